@@ -32,11 +32,19 @@ where
     T: Hash + Eq + Clone + Ord + Display + Send + Sync,
     A: Clone + Send + Sync,
 {
-    let neighbors_map = get_neighbors_of_nodes(node_names, graph);
-    neighbors_map
-        .clone()
+    // the neighbours of every node are needed: a neighbour of a requested node need
+    // not be one of the requested nodes itself
+    let neighbors_map = get_neighbors_of_nodes(None, graph);
+    let requested: Vec<T> = match node_names {
+        Some(names) if !names.is_empty() => names.to_vec(),
+        _ => graph.get_all_node_names().into_iter().cloned().collect(),
+    };
+    requested
         .into_iter()
-        .map(|(v, v_nbrs)| get_triangles_and_degrees_for_node(v, v_nbrs, &neighbors_map))
+        .map(|v| {
+            let v_nbrs = neighbors_map.get(&v).unwrap().clone();
+            get_triangles_and_degrees_for_node(v, v_nbrs, &neighbors_map)
+        })
         .collect()
 }
 
